@@ -155,4 +155,6 @@ def run(model, tier):
     res.extra['per_class'] = per
     from . import c03_riemann
     c03_riemann.check(model, res)
+    from . import c03_mader
+    c03_mader.check(model, res)
     return res
